@@ -318,6 +318,18 @@ def fs5(P, C):
              "key %s is written by write_fits_core itself; an auxiliary entry of that name would be written twice and read back as table metadata" % nm)
     for nm, why in sorted(STRUCTURAL.items()):
         C.ob("FS-5", "reservedFitsKeyword", nm, reserved(pred, nm), pf.where(), "structural keyword %s (%s) must be rejected as an auxiliary key" % (nm, why))
+    # the reader finds its extensions by name: cfitsio's search (fits_movnam_hdu) compares the EXTNAME, or failing that the HDUNAME, card of
+    # every HDU — the primary one included.  An auxiliary entry of that name in the primary header gives the coefficient image a name; with
+    # the value KNOTSn the search for knot vector n lands there (D54)
+    from . import fs as _fs
+    rf, R = _fs.reader_schema(P)
+    moves = [x for x in R if x["kind"] == "move"]
+    if not moves:
+        raise core.AnalysisBroken("FS-5: the reader no longer locates its extensions with fits_movnam_hdu; the HDU-naming keywords need re-deriving")
+    for nm in ("EXTNAME", "HDUNAME"):
+        C.ob("FS-5", "reservedFitsKeyword", nm, reserved(pred, nm), pf.where(),
+             "%s names an HDU for fits_movnam_hdu, by which the reader locates %s: as an auxiliary key it names the primary HDU, and the value %s "
+             "makes the reader take the coefficient image for that extension" % (nm, ", ".join(sorted(set(str(m["name"]) for m in moves))), moves[0]["name"]))
     C.extra["reserved_predicate"] = ["%s %s/%s" % p for p in pred]
 
 
@@ -335,6 +347,8 @@ RESERVED_TABLE = {
     "END": ("exact", None, "terminates the header (D24); exact on purpose: ENDTIME, ENDCAP ... are ordinary user keys"),
     "HISTORY": ("exact", None, "commentary card without a value field (D46); exact: HISTORYX is an ordinary user key"),
     "CONTINUE": ("exact", None, "continuation card (D46); exact"),
+    "EXTNAME": ("exact", None, "names the HDU for the reader's search by name (D54); exact"),
+    "HDUNAME": ("exact", None, "cfitsio's fallback for EXTNAME in the search by name (D54); exact"),
 }
 
 
@@ -854,6 +868,7 @@ def run(P, C):
     api1(P, C)
     ks1(P, C)
     ks2(P, C)
+    ks4(P, C)
     km1(P, C)
     km2(P, C)
     km4(P, C)
@@ -862,3 +877,92 @@ def run(P, C):
     fs5(P, C)
     fs5b(P, C)
     uw3(P, C)
+
+
+def ks4(P, C):
+    """KS-4: only printable ASCII goes into a card."""
+    C.rule("KS-4", "write_key refuses, by a throwing guard inside a loop over the whole string, every key and every value that contains a "
+           "character outside printable ASCII (below 0x20 or above 0x7e): a FITS card holds nothing else and cfitsio writes a blank in its "
+           "place, so the entry would come back under another key or with another value. For short keys the stricter upper-case/digit test "
+           "stands in", floor=6)
+    for f in [g for g in P.fns("write_key") if g.cls == ts.CLS and g.unit == "driver"]:
+        name = ts.fshort(f)
+        key = f.params[0]["id"]
+        vid = None
+        for i in f.walk():
+            if f.k(i) == "DeclStmt":
+                for d in f.nodes[i]["decls"]:
+                    if d.get("dk") == "Var" and d.get("init", -1) >= 0 and any(cal and cal["name"] == "str" for _x, cal in f.calls(d["init"])):
+                        vid = d["id"]
+        if vid is None:
+            raise core.AnalysisBroken("KS-4: the local holding the formatted value (… = ss.str()) was not found in %s" % name)
+        range_vars = {}
+        for L in f.walk():
+            if f.k(L) == "CXXForRangeStmt":
+                ri = f.nodes[L].get("rangeInit", -1)
+                if ri >= 0 and any(f.k(x) == "DeclRefExpr" and f.nodes[x]["decl"].get("id") == vid for x in f.walk(ri)):
+                    lv = f.nodes[L].get("loopVarStmt", -1)
+                    if lv >= 0:
+                        for d in f.nodes[lv]["decls"]:
+                            range_vars[d["id"]] = L
+
+        def subject(x):
+            x = f.strip(x)
+            # integral promotions / casts to unsigned char in front of the character
+            while f.k(x) in ("CStyleCastExpr", "CXXStaticCastExpr", "CXXFunctionalCastExpr") and f.ch(x):
+                x = f.strip(f.ch(x)[0])
+            if f.k(x) == "ArraySubscriptExpr":
+                b = f.strip(f.nodes[x]["ch"][0])
+                if f.k(b) == "DeclRefExpr" and f.nodes[b]["decl"].get("id") == key and f.nodes[b]["decl"].get("kind") == "ParmVar":
+                    return "key"
+            if f.k(x) == "DeclRefExpr" and f.nodes[x]["decl"].get("id") in range_vars:
+                return "value"
+            if f.k(x) == "CXXOperatorCallExpr" and f.nodes[x].get("opcall") == "[]":
+                b = f.strip(f.nodes[x]["ch"][1])
+                if f.k(b) == "DeclRefExpr" and f.nodes[b]["decl"].get("id") == vid:
+                    return "value"
+            return None
+        found = {}
+        for g in vg.guards_of(f):
+            conn, ls = core.cond_leaves(f, f.nodes[g["node"]]["cond"])
+            if conn not in ("||", "leaf"):
+                continue
+            if not any(f.k(a) in ("ForStmt", "CXXForRangeStmt", "WhileStmt") for a in f.ancestors(g["node"])):
+                continue
+            # enclosing branches: only the else-arm of the short-key test (whose then-arm applies the upper-case/digit test)
+            ok_branch = True
+            for a in f.ancestors(g["node"]):
+                if f.k(a) == "IfStmt":
+                    th, el = f.nodes[a].get("then", -1), f.nodes[a].get("else", -1)
+                    in_else = el >= 0 and g["node"] in set(f.walk(el))
+                    strict = th >= 0 and any(cal and cal["name"] in ("isupper",) for _x, cal in f.calls(th))
+                    if not (in_else and strict):
+                        ok_branch = False
+            if not ok_branch:
+                continue
+            for lf in ls:
+                c, neg = core.cond_polarity(f, lf)
+                n = f.nodes[c]
+                cal = n.get("callee")
+                if cal and cal["name"] in ("isprint",) and neg:
+                    s_ = subject(f.args(c)[0]) if f.args(c) else None
+                    if s_:
+                        found[(s_, "lower")] = found[(s_, "upper")] = g["node"]
+                    continue
+                if neg or n["k"] != "BinaryOperator" or n["op"] not in ("<", "<="):
+                    continue
+                a, b = n["ch"]
+                cva, cvb = f.nodes[f.strip(a)].get("cv"), f.nodes[f.strip(b)].get("cv")
+                if cvb is not None and subject(a):          # X < 32, X <= 31
+                    if (n["op"] == "<" and cvb == 32) or (n["op"] == "<=" and cvb == 31):
+                        found[(subject(a), "lower")] = g["node"]
+                if cva is not None and subject(b):          # 126 < X, 127 <= X
+                    if (n["op"] == "<" and cva == 126) or (n["op"] == "<=" and cva == 127):
+                        found[(subject(b), "upper")] = g["node"]
+        for s_ in ("key", "value"):
+            for side, what in (("lower", "below 0x20 (control characters; bytes above 0x7f where char is signed)"), ("upper", "above 0x7e (DEL and beyond)")):
+                gn = found.get((s_, side))
+                C.ob("KS-4", name, "rejects:%s-character-%s" % (s_, "below-0x20" if side == "lower" else "above-0x7e"), gn is not None,
+                     f.loc(gn) if gn is not None else f.where(),
+                     "a throwing guard in a loop over the %s refuses characters %s" % (s_, what) if gn is not None else
+                     "no throwing guard refuses a %s character %s: cfitsio stores a blank in its place and the entry comes back altered" % (s_, what))
